@@ -279,7 +279,7 @@ func subC17System(arg string) string {
 					if tag == "" {
 						rep = &vss.Signature{} // every field at its default: an empty payload
 					}
-					if strings.HasSuffix(tag, "7") {
+					if tag == "q7" || tag == "q17" || tag == "q27" {
 						rep.Content = bigReply // a reply that reaches the requester in many reads
 					}
 					s.Reply(context.Background(), m.Sender, m.RequestNonce, rep)
@@ -414,7 +414,7 @@ func subC17System(arg string) string {
 		wg.Add(1)
 		go func() {
 			defer wg.Done()
-			ctx, cancel := context.WithTimeout(context.Background(), 3*time.Second)
+			ctx, cancel := context.WithTimeout(context.Background(), 5*time.Second)
 			defer cancel()
 			r, err := sa.Request(ctx, []byte("peer0"), &vss.Signature{})
 			if err != nil {
@@ -624,7 +624,7 @@ func genC17(rng *hx.Rng, tier string, w *hx.Writer) error {
 	add := func(arg string, tags ...string) {
 		jobs = append(jobs, &c12job{
 			c:   hx.Case{Entry: "-", Op: 0, Args: hx.L(hx.B([]byte(arg))), Tags: append([]string{"system", "nt"}, tags...)},
-			sub: "c17-system", arg: arg, timeout: 60 * time.Second, group: "p2p-requests",
+			sub: "c17-system", arg: arg, timeout: 60 * time.Second, group: "p2p-requests", solo: true,
 			finish: func(out string) (string, bool) { return hx.B([]byte(out)), out == "ok" },
 			explain: func(class, out, panicLine string) (string, string) {
 				sc := "driver sub c17-system " + arg
@@ -710,7 +710,7 @@ func genC17(rng *hx.Rng, tier string, w *hx.Writer) error {
 		arg := "ev=" + strings.Join(evs, "+")
 		jobs = append(jobs, &c12job{
 			c:   hx.Case{Entry: "conntable", Op: 1, Args: hx.L(hx.L(wire...)), Tags: []string{"connection-tables", "nt"}},
-			sub: "c17-conntable", arg: arg, timeout: 90 * time.Second, group: "p2p-requests",
+			sub: "c17-conntable", arg: arg, timeout: 90 * time.Second, group: "p2p-requests", solo: true,
 			finish: func(out string) (string, bool) {
 				var vs []string
 				ok := true
